@@ -322,7 +322,8 @@ def replay_z0(chk, emitted, hws, rng):
     # the emitted windows of the specification agree with the circular predicate used below
     for e in emitted:
         lo = e["lo"] / 2.0
-        if e["n"] != 2 * (2 * e["hw"] + 1) or abs(((lo - (e["kk"] - e["hw"])) % 360.0)) > 1e-9:
+        hwd = e["hw"] / 2.0          # the specification counts half windows in half degrees
+        if e["n"] != round(2 * (2 * hwd + 1)) or abs(((lo - (e["kk"] - hwd)) % 360.0)) > 1e-9:
             raise MachineryError("KMZ0 emitted a window the harness does not understand: %s" % e)
     wd = np.arange(720) / 2.0
     order = rng.permutation(720)
@@ -405,7 +406,7 @@ def main():
     na = arbitrary_angles(chk, rng, 60 if t == "quick" else 1500)
     nm = captured_mass(chk, t)
     # (c) z0
-    hws = [1, 22, 45, 89] if t == "quick" else [1, 2, 3, 5, 8, 10, 15, 20, 21, 22, 22.5, 23, 30, 44, 45, 46, 60, 75, 88, 89]
+    hws = [1, 22, 22.5, 45, 88.5, 89] if t == "quick" else [1, 1.5, 2, 2.5, 3, 5, 8, 10, 15, 20, 21, 21.5, 22, 22.5, 23, 30, 44, 44.5, 45, 46, 60, 75, 88, 88.5, 89]
     nz = replay_z0(chk, runs["MC_KMZ0_" + t].emitted, hws, rng)
     chk.extra["z0_calls"] = nz
     chk.traces = nk + ng + na + nm + nz
@@ -414,7 +415,7 @@ def main():
     chk.assumptions += [
         "integer-typed inputs carry integer values (zm=10 vs zm=10.0): the comparison is with the float call of the same value, relative 1e-12",
         "cell values are compared with the closed form written from the paper's equations (scipy gammaln) at relative 1e-9; m uses the measured wind speed (Eq. 36), U the diabatic log law (Eq. 31), as the anchors of the property name them",
-        "estimateZ0 is run with wind directions in [0, 360); half windows up to 89 degrees (at 90 and above the code's wrapping is not circular: the default is 22)",
+        "estimateZ0 is run with wind directions in [0, 360); half windows up to 89 degrees (above that the code's wrapping is not circular - bin 270 with a half window of 89.5 misses north; the default is 22)",
         "float32 inputs are not in the property (Python int/float and NumPy integer/float scalars: int32, int64, float64 are used)",
     ]
     return chk.finish()
